@@ -6,8 +6,8 @@ import GoomVerif.Model.Conc
 (`bytecode.GetInnerFunc`); `G[*A]` and `G[*B]` share that inner function, so two builders that mock "different functions"
 `G[*A]` / `G[*B]` write the same location.  This is recorded as known finding **F28-c02-gcshape** by property C02; for C11 it
 means such a pair of builders is outside the hypothesis `Conc.Disjoint` (targets must be disjoint as PATCH LOCATIONS), which the
-theorem below makes explicit.  The C11 probe does not exercise generic targets: in a `-race` build `GetInnerFunc` resolves the
-wrapper's first CALL, which is `runtime.racefuncenter`, and goom then patches the race runtime.
+theorem below makes explicit.  The C11 probe exercises generic targets of DISTINCT shapes only (locations 58, 59; possible in the `-race` build since
+goom f59d74d makes `GetInnerFunc` skip `runtime.*` callees such as `racefuncenter`).
 -/
 namespace C11Generic
 open Conc
